@@ -35,6 +35,8 @@ CHECKS["C16"] = dict(text="Theorems (Coq): port_refines (induction over any hist
   ref="6 C16", technique="Coq proof (invariant + abstraction function, byte-level boolean algebra by bit blasting, induction over histories) + correspondence", note=_TB + "; message time stamps are only checked to be non-decreasing")
 CHECKS["C17"] = dict(text="Theorems (Coq): elapse_refines (feeding n states to update_timer8_0 at once = n single-state steps of the tick-by-tick reference: counter, flags, clears, requests, phase), partition_independent (any split of the same elapsed time, by induction over the list of charges, via update (a+b) = update b . update a), no_clock_no_count, count_refines (per-count flags / clear / requests under the side condition), flags_stay_set, clock_select_phase (0 <= p < divisor after every TCR write). Correspondence: all TCR values x start values x partitions of the same totals x interleaved register writes on the real update_modules / Bus::write, TCNT/TCSR and the pending queue compared.",
   ref="6 C17", technique="Coq proof (div/mod identities, induction over elapsed states and over charge lists) + correspondence", note=_TB + "; count claims for CKS 0-3 only; external clock / 16-bit cascade modes are outside the claim")
+CHECKS["C10"] = dict(text="Theorems (Coq): instructions_keep_requests (no instruction of the whole implemented set touches the request queue - proved over every handler), accept_only_unmasked / pending_while_masked, fifo_exactly_once (induction over any interleaving of requests, boundaries and instructions: entered ++ pending = requested, in order), interrupt_refines (acceptance of vector v = the reference's exception entry through 4 x v), entry_return_transparent (entry + RTE restores PC, CCR, SP, registers, memory outside the frame). Correspondence: generated programs with handlers and request bursts injected at arbitrary boundaries; final state, memory and pending queue against the reference interrupt system.",
+  ref="6 C10", technique="Coq proof (frame lemma over all handlers by a compositional tactic; induction over event interleavings) + correspondence", note=_TB + "; instruction atomicity is a modelling fact (one exec call per instruction in run()); handlers' own effects are part of the compared state")
 NOT_APPLICABLE = []
 
 def main():
